@@ -80,7 +80,18 @@ pub fn run_nsig(args: &[&str]) -> String {
         .filter(|i| h.get_signal_tpe(SignalRef::from_index(*i).unwrap()).is_some())
         .map(|i| i.to_string())
         .collect();
-    ids.join(",")
+    // groups of signals that are sub-ranges of the same parent: `parent>alias.alias`
+    let mut groups: std::collections::BTreeMap<usize, Vec<usize>> = std::collections::BTreeMap::new();
+    for i in 0..h.num_unique_signals() {
+        if let Some(s) = h.get_slice_info(SignalRef::from_index(i).unwrap()) {
+            groups.entry(s.sliced_signal.index()).or_default().push(i);
+        }
+    }
+    let g: Vec<String> = groups
+        .iter()
+        .map(|(p, a)| format!("{}>{}", p, a.iter().map(|x| x.to_string()).collect::<Vec<_>>().join(".")))
+        .collect();
+    format!("{}|{}", ids.join(","), g.join(";"))
 }
 
 /// `wobs <path>`: format independent listing of a waveform: timescale, time table, and for every variable in
